@@ -775,3 +775,185 @@ def m6_get_cells_capacity(S):
             S.prove(ctx, ob, f"{tag}_the_answer_carries_the_hash_and_number_of_the_newest_header_row", [], bool(shape and some))
             S.prove(ctx, ob, f"{tag}_the_capacity_is_the_sum_over_exactly_the_rows_under_the_prefix_that_pass_the_filter", pre, T.and_(*goals) if goals else False)
             S.witness(ctx, ob, f"{tag}_reach_both_rows_counted", pre, T.and_(inc[0], inc[1], R["has_tip"].t, T.gt(R["cap"][0].t, 0), T.gt(R["cap"][1].t, 0)))
+
+
+# ------------------------------------------------------------------------------------------------ search key -> filter options, query options
+def m7_filter_options(S):
+    """`TryInto<FilterOptions> for IndexerSearchKey`: every filter option comes from the same-named field of the JSON filter and from nothing else: the script prefix is the raw
+    data of the filter script; each range is [start, end] of its own JSON range in that order; the output data filter carries the given bytes and the given mode (Prefix when none
+    is given); `with_data` defaults to true; a missing filter gives no option at all"""
+    ob = "C18.m7"
+    f = [x for x in S.prog.funcs if x.kind == "fn" and x.short == "try_into" and "indexer/src/service.rs" in x.name and "{closure" not in x.name and "FilterOptions" in (x.ret or "")]
+    if len(f) != 1:
+        raise Inconclusive(f"TryInto<FilterOptions>: {len(f)} candidates")
+    f = f[0]
+    smode = _enum(JT, "IndexerSearchMode")
+    FO = field_index("util/indexer/src/service.rs", "FilterOptions")
+    none = lambda ty: mk_option(False, None, ty)
+    for scen in ("all_given", "mode_not_given", "no_filter", "with_data_false"):
+        ctx = S.ctx()
+        ctx.uninterpreted_unknown_calls = True
+        nmx = lambda ex, v: getattr(deref(ex, v) if isinstance(v, RefV) else v, "name", "?")
+
+        def into_u64(ex, c_, a, d):
+            return ctx.int("u64(" + nmx(ex, a[0]) + ")", "u64")
+        ctx.env = list(E.LOGGING_OFF) + [
+            (E.rx(r"<(ckb_jsonrpc_types::)?Script as Into<(ckb_types::)?packed::Script>>::into$"), lambda ex, c_, a, d: OpaqueV("packed(" + nmx(ex, a[0]) + ")", d)),
+            (E.rx(r"packed::Script::args$"), lambda ex, c_, a, d: OpaqueV("args(" + nmx(ex, a[0]) + ")", d)),
+            (E.rx(r"packed::Bytes::len$"), lambda ex, c_, a, d: ctx.int("filter_script_args_len", "usize")),
+            (E.rx(r"^extract_raw_data$"), lambda ex, c_, a, d: OpaqueV("raw(" + nmx(ex, a[0]) + ")", d)),
+            (E.rx(r"Vec::<u8>::as_slice$|<Vec<u8> as Deref>::deref$"), lambda ex, c_, a, d: a[0]),
+            (E.rx(r"Vec::<u8>::extend_from_slice$"), lambda ex, c_, a, d: (__import__("mir2smt.builtins", fromlist=["_wr"])._wr(ex, a[0], ListV(tuple(deref(ex, a[0]).items) + (OpaqueV("bytes_of(" + nmx(ex, a[1]) + ")", "segment"),), "Vec<u8>")), UNIT)[1]),
+            (E.rx(r"IndexerRange::start$"), lambda ex, c_, a, d: OpaqueV("start(" + nmx(ex, a[0]) + ")", d)),
+            (E.rx(r"IndexerRange::end$"), lambda ex, c_, a, d: OpaqueV("end(" + nmx(ex, a[0]) + ")", d)),
+            (E.rx(r"JsonUint<u64> as Into<u64>>::into$|<u64 as From<.*JsonUint<u64>>>::from$"), into_u64),
+            (E.rx(r"Capacity::shannons$"), lambda ex, c_, a, d: AggV((a[0],), "Capacity")),
+            (E.rx(r"JsonBytes::as_bytes$"), lambda ex, c_, a, d: OpaqueV("bytes_of(" + nmx(ex, a[0]) + ")", d)),
+            (E.rx(r"slice::<impl \[u8\]>::to_vec$"), lambda ex, c_, a, d: ListV((OpaqueV(nmx(ex, a[0]), "segment"),), "Vec<u8>")),
+            (E.rx(r"Error::invalid_params::<"), lambda ex, c_, a, d: OpaqueV("invalid_params", d)),
+            (E.rx(r"Option::<(ckb_jsonrpc_types::)?IndexerSearchKeyFilter>::unwrap_or_default$"), lambda ex, c_, a, d: a[0].payload(1)[0] if (isinstance(a[0], EnumV) and a[0].disc == 1) else _struct(JT, "IndexerSearchKeyFilter", {k: none("Option") for k in field_index(JT, "IndexerSearchKeyFilter")})),
+            (E.rx(r"<IndexerSearchKeyFilter as Default>::default$"), lambda ex, c_, a, d: _struct(JT, "IndexerSearchKeyFilter", {k: none("Option") for k in field_index(JT, "IndexerSearchKeyFilter")})),
+            (E.rx(r"^format$|must_use::<"), E.opaque_call()),
+        ]
+        given = scen != "no_filter"
+        filt = _struct(JT, "IndexerSearchKeyFilter", {
+            "script": mk_option(True, OpaqueV("json_filter_script", "Script"), "Option<Script>"),
+            "script_len_range": mk_option(True, OpaqueV("json_script_len_range", "IndexerRange"), "Option<IndexerRange>"),
+            "output_data": mk_option(True, OpaqueV("json_output_data", "JsonBytes"), "Option<JsonBytes>"),
+            "output_data_filter_mode": mk_option(True, EnumV(smode.index("Exact"), (), "IndexerSearchMode"), "Option<IndexerSearchMode>") if scen != "mode_not_given" else none("Option<IndexerSearchMode>"),
+            "output_data_len_range": mk_option(True, OpaqueV("json_output_data_len_range", "IndexerRange"), "Option<IndexerRange>"),
+            "output_capacity_range": mk_option(True, OpaqueV("json_output_capacity_range", "IndexerRange"), "Option<IndexerRange>"),
+            "block_range": mk_option(True, OpaqueV("json_block_range", "IndexerRange"), "Option<IndexerRange>")})
+        sk = _struct(JT, "IndexerSearchKey", {
+            "script": OpaqueV("search_script_json", "Script"), "script_type": EnumV(0, (), "IndexerScriptType"), "script_search_mode": none("Option<IndexerSearchMode>"),
+            "filter": mk_option(True, filt, "Option<IndexerSearchKeyFilter>") if given else none("Option<IndexerSearchKeyFilter>"),
+            "with_data": mk_option(True, BoolV(False), "Option<bool>") if scen == "with_data_false" else none("Option<bool>"), "group_by_transaction": none("Option<bool>")})
+        ps = S.run(ctx, f, [sk])
+        pre = [T.le(ctx.int("filter_script_args_len", "usize").t, 65535)]
+        S.prove(ctx, ob, f"{scen}_no_panic", pre, T.not_(cond_of(panics(ps))))
+        oks = [p_ for p_ in returns(ps) if isinstance(p_.value, EnumV) and p_.value.disc == 0]
+        good = bool(oks)
+        note = ""
+        for p_ in oks:
+            o = p_.value.payload(0)[0]
+            g = lambda k: o.fields[FO[k]]
+            def rng(v, src, conv):
+                if not (isinstance(v, EnumV) and v.disc == 1):
+                    return False
+                arr = v.payload(1)[0]
+                x, y = [conv(z) for z in arr.fields]
+                return x == ctx.int(f"u64(start({src}))", "u64").t and y == ctx.int(f"u64(end({src}))", "u64").t
+            if not given:
+                ok = all(isinstance(g(k), EnumV) and g(k).disc == 0 for k in FO if k != "with_data") and g("with_data").t is True
+            else:
+                sp = g("script_prefix")
+                od = g("output_data")
+                ok = (isinstance(sp, EnumV) and sp.disc == 1 and [getattr(x, "name", None) for x in sp.payload(1)[0].items] == ["bytes_of(raw(packed(json_filter_script)))"]
+                      and rng(g("script_len_range"), "json_script_len_range", lambda z: z.t) and rng(g("output_data_len_range"), "json_output_data_len_range", lambda z: z.t)
+                      and rng(g("output_capacity_range"), "json_output_capacity_range", as_int) and rng(g("block_range"), "json_block_range", lambda z: z.t)
+                      and isinstance(od, EnumV) and od.disc == 1 and [getattr(x, "name", None) for x in od.payload(1)[0].fields[0].items] == ["bytes_of(json_output_data)"]
+                      and od.payload(1)[0].fields[1].disc == smode.index("Prefix" if scen == "mode_not_given" else "Exact")
+                      and g("with_data").t is (scen != "with_data_false"))
+            if not ok:
+                good = False
+                note = str(o)[:400]
+        S.prove(ctx, ob, f"{scen}_every_option_comes_from_the_same_named_json_field", [], good, extra={"note": note})
+        errs = [p_ for p_ in returns(ps) if isinstance(p_.value, EnumV) and p_.value.disc == 1]
+        if given:
+            S.prove(ctx, ob, f"{scen}_rejected_iff_the_filter_script_args_are_too_long", [], T.iff(T.or_(*[p_.cond() for p_ in errs]) if errs else False, T.gt(ctx.int("filter_script_args_len", "usize").t, 65535)))
+
+
+def m8_build_query_options(S):
+    """`build_query_options` (byte strings as lists of segments): the scanned prefix is the prefix byte of the searched script kind (the lock or the type table handed in) followed by
+    the raw data of the searched script; ascending without cursor starts at the prefix going forward, descending without cursor starts at the prefix padded with 0xff up to the
+    maximal args length going backward, with a cursor the scan starts at the cursor in the same direction and skips that one row; scripts with too long args are refused"""
+    ob = "C18.m8"
+    f = [x for x in S.prog.funcs if x.kind == "fn" and x.short == "build_query_options" and "{closure" not in x.name]
+    if len(f) != 1:
+        raise Inconclusive(f"build_query_options: {len(f)} candidates")
+    f = f[0]
+    stype = _enum(JT, "IndexerScriptType")
+    order = _enum(JT, "IndexerOrder")
+    kp = _enum_values("util/indexer/src/indexer.rs", "KeyPrefix")
+    direction = ["Forward", "Reverse"]          # rocksdb::Direction, declaration order
+    none = lambda ty: mk_option(False, None, ty)
+    from mir2smt.builtins import _wr
+    for search_type in ("Lock", "Type"):
+        for ordr in ("Asc", "Desc"):
+            for cursor in (False, True):
+                ctx = S.ctx()
+                ctx.uninterpreted_unknown_calls = True
+                nmx = lambda ex, v: getattr(deref(ex, v) if isinstance(v, RefV) else v, "name", "?")
+                args_len = ctx.int("search_script_args_len", "usize")
+
+                def vec_macro(ex, c_, a, d):
+                    b = a[0]
+                    for _ in range(6):
+                        if isinstance(b, AggV) and b.fields:
+                            b = b.fields[0]
+                    v = deref(ex, b) if isinstance(b, RefV) else b
+                    if isinstance(v, AggV):
+                        return ListV(tuple(v.fields), d)
+                    raise Stop(f"vec! of {str(v)[:60]}")
+
+                def seg(v):
+                    return tuple(v.items) if isinstance(v, ListV) else (OpaqueV(getattr(v, "name", "?"), "segment"),)
+                ctx.env = list(E.LOGGING_OFF) + [
+                    (E.rx(r"^slice::<impl \[.*\]>::into_vec::<"), vec_macro),
+                    (E.rx(r"<(ckb_jsonrpc_types::)?Script as Clone>::clone$"), lambda ex, c_, a, d: OpaqueV(nmx(ex, a[0]), d)),
+                    (E.rx(r"<(ckb_jsonrpc_types::)?Script as Into<(ckb_types::)?packed::Script>>::into$"), lambda ex, c_, a, d: OpaqueV("packed(" + nmx(ex, a[0]) + ")", d)),
+                    (E.rx(r"packed::Script::args$"), lambda ex, c_, a, d: OpaqueV("args(" + nmx(ex, a[0]) + ")", d)),
+                    (E.rx(r"packed::Bytes::len$"), lambda ex, c_, a, d: args_len),
+                    (E.rx(r"^extract_raw_data$"), lambda ex, c_, a, d: OpaqueV("raw(" + nmx(ex, a[0]) + ")", d)),
+                    (E.rx(r"Vec::<u8>::as_slice$|<Vec<u8> as Deref>::deref$"), lambda ex, c_, a, d: a[0]),
+                    (E.rx(r"Vec::<u8>::extend_from_slice$"), lambda ex, c_, a, d: (_wr(ex, a[0], ListV(tuple(deref(ex, a[0]).items) + seg(deref(ex, a[1]) if isinstance(a[1], RefV) else a[1]), "Vec<u8>")), UNIT)[1]),
+                    (E.rx(r"<Vec<u8> as Clone>::clone$"), lambda ex, c_, a, d: deref(ex, a[0])),
+                    (E.rx(r"^from_elem::<u8>$|vec::from_elem::<u8>$"), lambda ex, c_, a, d: ListV((AggV((a[0], a[1]), "fill"),), "Vec<u8>")),
+                    (E.rx(r"slice::<impl \[Vec<u8>\]>::concat::<u8>$"), lambda ex, c_, a, d: ListV(tuple(x for part in (deref(ex, a[0]) if isinstance(a[0], RefV) else a[0]).fields for x in seg(part)), "Vec<u8>") if isinstance((deref(ex, a[0]) if isinstance(a[0], RefV) else a[0]), AggV) else ListV(tuple(x for part in (deref(ex, a[0]) if isinstance(a[0], RefV) else a[0]).items for x in seg(part)), "Vec<u8>")),
+                    (E.rx(r"JsonBytes::as_bytes$"), lambda ex, c_, a, d: OpaqueV("bytes_of(" + nmx(ex, a[0]) + ")", d)),
+                    (E.rx(r"<&\[u8\] as Into<Vec<u8>>>::into$"), lambda ex, c_, a, d: ListV(seg(deref(ex, a[0]) if isinstance(a[0], RefV) else a[0]), "Vec<u8>")),
+                    (E.rx(r"Error::invalid_params::<"), lambda ex, c_, a, d: OpaqueV("invalid_params", d)),
+                    (E.rx(r"^format$|must_use::<"), E.opaque_call()),
+                ]
+                sk = _struct(JT, "IndexerSearchKey", {
+                    "script": OpaqueV("search_script_json", "Script"), "script_type": EnumV(stype.index(search_type), (), "IndexerScriptType"), "script_search_mode": none("Option<IndexerSearchMode>"),
+                    "filter": none("Option<IndexerSearchKeyFilter>"), "with_data": none("Option<bool>"), "group_by_transaction": none("Option<bool>")})
+                lockp, typep = kp["CellLockScript"], kp["CellTypeScript"]
+                ps = S.run(ctx, f, [ctx.ref_to(sk), EnumV(lockp, (), "KeyPrefix"), EnumV(typep, (), "KeyPrefix"), EnumV(order.index(ordr), (), "IndexerOrder"),
+                                    mk_option(True, OpaqueV("cursor_json", "JsonBytes"), "Option<JsonBytes>") if cursor else none("Option<JsonBytes>")])
+                tag = f"{search_type}_{ordr}_{'cursor' if cursor else 'start'}"
+                S.prove(ctx, ob, f"{tag}_no_panic", [], T.not_(cond_of(panics(ps))))
+                oks = [p_ for p_ in returns(ps) if isinstance(p_.value, EnumV) and p_.value.disc == 0]
+                errs = [p_ for p_ in returns(ps) if isinstance(p_.value, EnumV) and p_.value.disc == 1]
+                S.prove(ctx, ob, f"{tag}_refused_iff_the_args_are_longer_than_the_maximum", [], T.iff(T.or_(*[p_.cond() for p_ in errs]) if errs else False, T.gt(args_len.t, 65535)))
+                good, note = bool(oks), ""
+
+                def show(v):
+                    out = []
+                    for x in (v.items if isinstance(v, ListV) else ()):
+                        if isinstance(x, IntV):
+                            out.append(x.t)
+                        elif isinstance(x, AggV) and x.ty == "fill":
+                            out.append(("fill",) + tuple(getattr(z, "t", getattr(z, "name", str(z)[:30])) for z in x.fields))
+                        else:
+                            out.append(getattr(x, "name", str(x)[:30]))
+                    return out
+                want_prefix = [lockp if search_type == "Lock" else typep, "raw(packed(search_script_json))"]
+                fill_byte = next((x[1] for p_ in oks for x in show(p_.value.payload(0)[0].fields[1]) if isinstance(x, tuple) and x[0] == "fill"), None)
+                if fill_byte not in (255, "const.u8__MAX", None):           # 0xff is written `u8::MAX` by the compiler
+                    fill_byte = "not 0xff"
+                for p_ in oks:
+                    prefix, from_key, dirv, skip = p_.value.payload(0)[0].fields
+                    ok = show(prefix) == want_prefix
+                    if cursor:
+                        ok = ok and show(from_key) == ["bytes_of(cursor_json)"] and skip.t == 1
+                    elif ordr == "Asc":
+                        ok = ok and show(from_key) == want_prefix and skip.t == 0
+                    else:
+                        ok = ok and show(from_key) == want_prefix + [("fill", fill_byte, T.sub(65535, args_len.t))] and skip.t == 0
+                    wantd = "Forward" if ordr == "Asc" else "Reverse"
+                    ok = ok and ((isinstance(dirv, EnumV) and dirv.disc == direction.index(wantd)) or re.fullmatch(r"enumconst\.(\w+__)?" + wantd, str(getattr(dirv, "name", ""))) is not None)
+                    if not ok:
+                        good = False
+                        note = str((show(prefix), show(from_key), str(dirv)[:40], skip.t))
+                S.prove(ctx, ob, f"{tag}_prefix_start_key_direction_and_skip", [], good, extra={"note": note})
